@@ -143,7 +143,7 @@ def run(rep, ctx):
             dict(unit="src/nl-reader.cc", repo=repo,
                  fn=[r"mp::internal::TextReader::ReadHeader", r"mp::operator<<"],
                  rec=[r"NLProblemInfo_C", r"NLInfo_C", r"mp::NLHeader"]),
-            dict(unit="src/problem.cc", repo=repo,
+            dict(unit="src/problem.cc", repo=repo, closure=1, closure_roots=r"mp::internal::NLReader::(ReadBounds|ReadConstant)$",
                  fn=[r"mp::internal::NLReader::(Read|ReadBounds|ReadConstant|ReadColumnSizes)",
                      r"mp::internal::BinaryReader::.*", r"mp::internal::BinaryReaderBase::.*",
                      r"mp::internal::TextReader::ReadDouble"]),
@@ -509,7 +509,37 @@ def segment_rules(rep, F, FW):
              "writer bound codes %s, reader cases %s" % (sorted(codes_w), sorted(codes_r)))
     # complementarity variable index: writer cvar + 1, reader --var_index
     plus = any(n["k"] == "BinaryOperator" and n.get("op") == "+" and render(n) == "cvar + 1" for n in wb[0].walk())
-    minus = any(n["k"] == "UnaryOperator" and n.get("op") == "--" and "var_index" in render(n) for n in rb[0].walk())
+    # the index handed to OnComplementarity is the number read from the file minus one, however that is written:
+    # a decrement of the local, `x - 1` in the call, or a reading helper that returns `x - 1`
+    by_id_ = getattr(F, "_by_id", {})
+
+    def read_minus_one(f_, e, depth=0):
+        e = strip(e)
+        if e is None or depth > 3:
+            return False
+        if e["k"] == "BinaryOperator" and e.get("op") == "-" and cv(kids(e)[1]) == 1:
+            return "ReadUInt" in xrender(f_, kids(e)[0], True)
+        if e["k"] in ("CXXMemberCallExpr", "CallExpr"):
+            g_ = by_id_.get(e.get("calleeId"))
+            if g_ is not None and g_.cfg is not None:
+                rs_ = [r_ for r_ in g_.walk() if r_["k"] == "ReturnStmt" and kids(r_)]
+                return len(rs_) == 1 and read_minus_one(g_, kids(rs_[0])[0], depth + 1)
+            return False
+        if e["k"] == "DeclRefExpr" and e.get("dk") == "Var":
+            vd_ = [v for v in f_.walk() if v["k"] == "VarDecl" and v.get("declId") == e.get("declId") and kids(v)]
+            if len(vd_) != 1:
+                return False
+            dec_ = [n for n in f_.walk() if ((n["k"] == "UnaryOperator" and n.get("op") == "--") or
+                                             (n["k"] == "CompoundAssignOperator" and n.get("op") == "-=" and cv(kids(n)[1]) == 1)) and
+                    strip(kids(n)[0]).get("declId") == e.get("declId")]
+            wr_ = [n for n in f_.walk() if n["k"] == "BinaryOperator" and n.get("op") == "=" and strip(kids(n)[0]).get("declId") == e.get("declId")]
+            if len(dec_) == 1 and not wr_:
+                return "ReadUInt" in render(kids(vd_[0])[0]) and f_.cfg.dominates(dec_[0], e)
+            if not dec_ and not wr_:
+                return read_minus_one(f_, kids(vd_[0])[0], depth + 1)
+        return False
+    oc_ = [c_ for c_ in rb[0].walk() if c_["k"] in ("CXXMemberCallExpr", "CallExpr") and (c_.get("callee") or "").endswith("OnComplementarity")]
+    minus = bool(oc_) and all(len(call_args(c_)) >= 2 and read_minus_one(rb[0], call_args(c_)[1]) for c_ in oc_)
     t4.check(plus and minus, "compl-index-shift", short_loc(wb[0].loc),
              "writer prints cvar + 1 and the reader decrements the index")
     # column sizes: 'k' cumulative, 'K' plain
